@@ -3,8 +3,6 @@
 NOT_APPLICABLE = {
     'C02': 'Fixpoint of print-parse is equality of two runtime strings/trees; no code-shape necessary condition '
            'beyond those claimed under C01/C06.',
-    'C20': 'Line spans are arithmetic over runtime text offsets; the only structural proxy would be a frozen '
-           'fragment of source.py (brittle text match).',
     'C37': 'SCC pipelines: behavioural equivalence of long transformation chains; not a code-shape fact.',
     'C40': 'Idempotence is equality of the outputs of two runs; not decidable from code shape.',
     'C41': 'Well-formedness after every transformation lives in runtime scope chains; a generic undefined-name '
